@@ -464,10 +464,37 @@ func (f *Fetcher) Get(k eval.VariableKey, s string) (eval.Value, error) {
 	if !ok {
 		return nil, m.ErrUnbound
 	}
-	if i, isInt := v.(int64); isInt && f.Raw && hash64(s)%2 == 0 {
-		return int(i), nil
+	if f.Raw {
+		return rawValue(s, v), nil
 	}
 	return v, nil
+}
+
+// rawValue: what a fetcher in Raw mode hands over for the variable: integers of every other
+// variable (by name hash) come as Go int, the others as Go int32 when they fit.
+func rawValue(name string, v interface{}) interface{} {
+	i, isInt := v.(int64)
+	if !isInt {
+		return v
+	}
+	switch hash64(name) % 3 {
+	case 0:
+		return int(i)
+	case 1:
+		if int64(int32(i)) == i {
+			return int32(i)
+		}
+	}
+	return v
+}
+
+// rawBound is the binding as the engine sees it through a Raw fetcher.
+func rawBound(vars map[string]interface{}) map[string]interface{} {
+	out := map[string]interface{}{}
+	for n, v := range vars {
+		out[n] = rawValue(n, v)
+	}
+	return out
 }
 
 // ErrUnavailable is returned by the instrumented fetcher when Get is called for a
@@ -750,4 +777,3 @@ func foreignActivity(salt int) {
 		SafeCompile(cc, s)
 	}
 }
-
